@@ -354,6 +354,37 @@ def rule_s1(ctx, F):
               stop_pts=head, retrigger_is_stop=False)
 
 
+def rule_s2(ctx, F):
+    """S2: the layers are ordered from the start.  HighlightIterLayer::new returns the root layer plus one layer per
+    combined injection, in the order of the injection *patterns*; sort_layers() only bubbles the front layer into an
+    otherwise ordered list.  So Highlighter::highlight must not take that vector as it is: every initial layer goes
+    through insert_layer (or the vector is fully sorted) — otherwise a combined injection whose content comes earlier in
+    the document than another one's is consulted too late and its highlights come out as empty spans outside its content."""
+    c = [f for f in F.fn_list if f.name.endswith("Highlighter::highlight") and "TSHighlighter" not in f.name]
+    if not c:
+        ctx.bad("S2", "highlight:initial-layers-ordered", "Highlighter::highlight not found")
+        return
+    fn = c[0]
+    direct = False
+    for pt, e in fn.points():
+        for x in own_walk(e):
+            if x.get("k") == "agg" and str(x.get("adt")).endswith("HighlightIter"):
+                for f in x.get("fields", []):
+                    t = rsrules.deep_text(fn, f["e"], user=True)
+                    fresh = t.lstrip("&*( ").startswith(("std::vec::Vec::<T>::with_capacity", "std::vec::Vec::<T>::new", "Vec::<T>::new", "Vec::<T>::with_capacity"))
+                    if f["f"] == "layers" and "HighlightIterLayer" in t and "::new(" in t and not fresh:
+                        direct = True
+    ins = calls_named(fn, "insert_layer")
+    full = [pt for pt, c2 in fn.calls() if any(k in (c2.get("fn") or "") for k in ("::sort_by", "::sort_unstable_by", "::sort_by_key", "::sort_by_cached_key"))]
+    if direct and not full:
+        ctx.bad("S2", "highlight:initial-layers-ordered", "Highlighter::highlight installs the vector returned by HighlightIterLayer::new as the iterator's layers and only calls sort_layers(), which moves the "
+                "front layer: with two combined injections whose contents appear in the opposite order of their patterns, the second layer's highlights are emitted late as empty spans outside its content")
+    elif ins or full:
+        ctx.ok("S2", "highlight:initial-layers-ordered", "the initial layers are %s" % ("inserted one by one with insert_layer" if ins else "fully sorted"))
+    else:
+        ctx.bad("S2", "highlight:initial-layers-ordered", "Highlighter::highlight neither inserts the initial layers with insert_layer nor sorts them")
+
+
 def rule_l1(ctx, F):
     """L1: a name resolved as a local reference is highlighted like its definition: the emitted
     highlight is `reference_highlight.or(current_highlight)`; a definition's slot receives the highlight
@@ -502,6 +533,7 @@ def run(ctx):
     rule_p7(ctx, F)
     rule_u1(ctx)
     rule_s1(ctx, F)
+    rule_s2(ctx, F)
     rule_l1(ctx, F)
     rule_g2(ctx, F)
     return ctx.finish(
